@@ -308,8 +308,8 @@ vf_read_file(const char * path, char * text, size_t n)
 	text[0] = 0;
 	if (!f) return;
 	fseek(f, 0, SEEK_END); sz = ftell(f);
-	/* keep the head: the first report is the one that matters */
-	fseek(f, 0, SEEK_SET); (void)sz;
+	/* keep the tail: the report of the fatal error comes last (after any library warnings) */
+	fseek(f, sz > (long)(n - 1) ? sz - (long)(n - 1) : 0, SEEK_SET);
 	r = fread(text, 1, n - 1, f); text[r] = 0;
 	fclose(f);
 }
